@@ -56,6 +56,7 @@ RULE = ("result = (kind in full/banded/equal-K via Lmin=N/equal-K via band/singl
         "copy/pickle step")
 
 U = 2.0 ** -53
+LIBERR = (Exception, SystemExit)     # some schedulers call sys.exit() on an empty plan: an error outcome like any other here
 MAX_VIOL = 12
 SEQ = set(T.ATTR_SEQUENCE_LEVEL)
 
@@ -578,7 +579,7 @@ def check_dataframe(P: C.Part, res, case: Dict[str, Any], tag: str, names: List[
         add_violation(P, f"{tag}: to_dataframe() index is {df.index.name!r} with {len(df)} rows; expected the {nf} frequencies `f`", dict(sig, problem="index"), case)
         return
     expected = {}
-    for n in sorted((set(names) - {"G"}) | set(DATA_FIELDS) | set(data_keys(res))):
+    for n in sorted((set(names) - {"G"}) | set(DATA_FIELDS) | set(data_keys(res))):      # G is an alias of psd outside the listed names: optional
         if n == "f":
             continue
         try:
@@ -589,14 +590,22 @@ def check_dataframe(P: C.Part, res, case: Dict[str, Any], tag: str, names: List[
             expected[n] = v
     cols = [str(c) for c in df.columns]
     missing = sorted(set(expected) - set(cols))
-    extra = sorted(set(cols) - set(expected) - {"G"})
+    # a column outside the enumerated candidates is legitimate iff it is itself a per-bin array attribute (e.g. a new data field)
+    extra = []
+    for c in sorted(set(cols) - set(expected)):
+        try:
+            v = read(res, c)
+        except Exception:  # noqa
+            v = None
+        if isinstance(v, np.ndarray) and v.shape[:1] == (nf,):
+            expected[c] = v
+        else:
+            extra.append(c)
     if missing or extra or len(cols) != len(set(cols)):
-        add_violation(P, f"{tag}: to_dataframe() columns differ from the per-bin arrays: missing {missing}, unexpected {extra} (nf={nf})",
+        add_violation(P, f"{tag}: to_dataframe() columns differ from the per-bin arrays: missing {missing}, not a per-bin array attribute {extra} (nf={nf})",
                       dict(sig, problem="columns", missing=missing[:3], extra=extra[:3]), case)
         return
     for c in cols:
-        if c not in expected:
-            continue
         P.cases += 1
         col = df[c].to_numpy()
         v = expected[c]
@@ -737,7 +746,7 @@ def run_case(P: C.Part, recipe: Dict[str, Any], case_seed: int, names: List[str]
     try:
         res = build(recipe)
         twin = build(recipe)
-    except Exception as ex:  # noqa  (whether a result can be computed at all is not this property)
+    except LIBERR as ex:  # noqa  (whether a result can be computed at all is not this property)
         P.hit(f"build-failed.{kind}.{type(ex).__name__}")
         return
     mode = "cross" if res.iscsd else "auto"
@@ -754,15 +763,23 @@ def run_case(P: C.Part, recipe: Dict[str, Any], case_seed: int, names: List[str]
     if not all(bits_equal(read(res, b), read(twin, b)) for b in base):
         P.hit("twin-not-bit-identical")
         twin = res
-    final = check_sequence(P, res, twin, case, tag, rng, allnames)
+    mode_sig = {"check": "crash", "mode": mode}
+    try:
+        final = check_sequence(P, res, twin, case, tag, rng, allnames)
+    except Exception as ex:  # noqa  (an attribute read / export that raises on a real result is a failure of the property, not of the check)
+        add_violation(P, f"{tag}: the operation sequence raised {type(ex).__name__}: {str(ex)[:160]}", dict(mode_sig, stage="sequence", exc=type(ex).__name__), case)
+        final = twin
     for obj, t in ((twin, tag), (final, tag + " (after the operation sequence)")):
         if len(P.violations) >= MAX_VIOL:
             return
-        check_none_table(P, obj, case, t, allnames)
-        check_identities(P, obj, case, t)
-        if obj is twin or rng.random() < 0.5:
-            check_measurement(P, obj, case, t, rng, light=obj is not twin)
-        check_dataframe(P, obj, case, t, allnames)
+        for stage, fn in (("none-table", lambda: check_none_table(P, obj, case, t, allnames)),
+                          ("identities", lambda: check_identities(P, obj, case, t)),
+                          ("measurement", lambda: check_measurement(P, obj, case, t, rng, light=obj is not twin) if (obj is twin or rng.random() < 0.5) else None),
+                          ("to_dataframe", lambda: check_dataframe(P, obj, case, t, allnames))):
+            try:
+                fn()
+            except Exception as ex:  # noqa
+                add_violation(P, f"{t}: {stage} check: the result raised {type(ex).__name__}: {str(ex)[:160]}", dict(mode_sig, stage=stage, exc=type(ex).__name__), case)
         if obj is final and final is twin:
             break
 
@@ -803,7 +820,7 @@ def corr_none_tables(ctx, P: C.Part, names: List[str]) -> None:
             try:
                 rec = gen_recipe(ctx.rng, kind, cross)
                 res = build(rec)
-            except Exception as ex:  # noqa
+            except LIBERR as ex:  # noqa
                 P.notes.append(f"none-table: could not build {kind}: {ex!r}"[:160])
                 continue
             mode = "cross" if cross else "auto"
@@ -843,12 +860,12 @@ def corr_interp(ctx, P: C.Part) -> None:
             P.notes.append("interp correspondence: time budget reached")
             break
         kind = ["full", "band", "fake", "single", "full", "equalK-band"][i % 6]
-        rec = gen_recipe(ctx.rng, kind)
-        if rec["fn"] == "compute_spectrum":
-            rec["kw"]["Jdes"] = min(int(rec["kw"].get("Jdes", 10)), 25)
         try:
+            rec = gen_recipe(ctx.rng, kind)
+            if rec["fn"] == "compute_spectrum":
+                rec["kw"]["Jdes"] = min(int(rec["kw"].get("Jdes", 10)), 25)
             res = build(rec)
-        except Exception as ex:  # noqa
+        except LIBERR as ex:  # noqa
             P.notes.append(f"interp: could not build {kind}: {ex!r}"[:160])
             continue
         f = np.asarray(res.f, dtype=float)
@@ -918,7 +935,7 @@ def oracle(ctx, intensive: bool = False, hints: List[Dict[str, Any]] = ()) -> C.
         try:
             with quiet():
                 rec = gen_recipe(ctx.rng, kind)
-        except Exception as ex:  # noqa  (planning failed: not this property)
+        except LIBERR as ex:  # noqa  (planning failed: not this property)
             P.hit(f"recipe-failed.{kind}.{type(ex).__name__}")
             continue
         seed = int(ctx.rng.integers(0, 2 ** 31 - 1))
